@@ -46,6 +46,9 @@ thread_local! {
 
 /// cases currently being evaluated (thread, "job/part", start) - read only by the watchdog, to say where a run hung
 static IN_FLIGHT: std::sync::Mutex<Vec<(std::thread::ThreadId, String, Instant)>> = std::sync::Mutex::new(Vec::new());
+/// failures of jobs that have already finished - read only by the watchdog, so that violations found
+/// before another job hung are still reported (the hang itself stays "inconclusive")
+static EARLY_FAILURES: std::sync::Mutex<Vec<Failure>> = std::sync::Mutex::new(Vec::new());
 
 struct InFlight;
 impl InFlight {
@@ -601,11 +604,36 @@ fn run_jobs(opts: &Opts, jobs: &[Job], replay: Option<(String, String, Value)>) 
                 if let Err(p) = r {
                     ctx.stats.harness_errors.push(format!("{}: job body panicked `{}` at {}", job.name, p.msg, p.at));
                 }
+                if replay.is_none() && !ctx.stats.failures.is_empty() {
+                    if let Ok(mut g) = EARLY_FAILURES.lock() {
+                        g.extend(ctx.stats.failures.iter().cloned());
+                    }
+                }
                 total.lock().unwrap().merge(ctx.stats);
             });
         }
     });
     total.into_inner().unwrap()
+}
+
+/// writes one replay file per failure; returns (path, message) pairs and the write errors
+fn write_replays(prop_id: &str, replay_dir: &str, profile: &str, seed: u64, tier: &str, failures: &[Failure]) -> (Vec<(String, String)>, Vec<String>) {
+    let _ = std::fs::create_dir_all(replay_dir);
+    let (mut out, mut errs) = (Vec::new(), Vec::new());
+    for (k, f) in failures.iter().enumerate() {
+        let fname = format!("{}/{}-{}-{}.json", replay_dir, sanitize(&f.job), sanitize(&f.part), profile);
+        let fname = if failures[..k].iter().any(|g| g.job == f.job && g.part == f.part) { format!("{}.{}", fname, k) } else { fname };
+        let doc = json!({
+            "property": prop_id, "job": f.job, "part": f.part, "profile": profile,
+            "seed": seed, "tier": tier,
+            "case": f.case, "case_debug": f.case_dbg, "message": f.message,
+        });
+        if let Err(e) = std::fs::write(&fname, serde_json::to_string_pretty(&doc).unwrap()) {
+            errs.push(format!("cannot write replay file {}: {}", fname, e));
+        }
+        out.push((fname, format!("{} / {}: {} on case {}", f.job, f.part, f.message, truncate(&f.case_dbg, 600))));
+    }
+    (out, errs)
 }
 
 fn sanitize(s: &str) -> String {
@@ -624,15 +652,31 @@ pub fn main(prop: Property, jobs: Vec<Job>, selftests: &[(&str, fn() -> Result<u
     let t0 = Instant::now();
     install_panic_hook();
 
-    // watchdog: a hang or runaway budget is "inconclusive", never a violation
+    // watchdog: a hang or runaway budget is "inconclusive", never a violation. It fires when the whole
+    // run exceeds its limit or when ONE case has been evaluating for longer than any legitimate case
+    // can (cases take milliseconds to about a second). Violations of jobs that finished before are
+    // still reported (exit 1); the hung part stays undecided.
     let limit_s: u64 = std::env::var("VERIF_WATCHDOG_S").ok().and_then(|s| s.parse().ok()).unwrap_or(match opts.tier {
         Tier::Quick => 1500,
         Tier::Thorough => 6 * 3600,
     });
+    let stuck_s: u64 = std::env::var("VERIF_STUCK_S").ok().and_then(|s| s.parse().ok()).unwrap_or(match opts.tier {
+        Tier::Quick => 400,
+        Tier::Thorough => 1800,
+    });
     let pid = prop.id.to_string();
+    let (wd_dir, wd_profile, wd_seed, wd_tier, wd_replay) = (format!("{}/replays/{}", opts.verif_dir, prop.id), opts.profile.clone(), opts.seed, format!("{:?}", opts.tier).to_lowercase(), opts.replay.is_some());
     std::thread::spawn(move || {
-        std::thread::sleep(std::time::Duration::from_secs(limit_s));
-        println!("INCONCLUSIVE property={} watchdog after {} s", pid, limit_s);
+        let start = Instant::now();
+        loop {
+            std::thread::sleep(std::time::Duration::from_secs(2));
+            let total = start.elapsed().as_secs();
+            let longest = IN_FLIGHT.lock().map(|g| g.iter().map(|(_, _, since)| since.elapsed().as_secs()).max().unwrap_or(0)).unwrap_or(0);
+            if total >= limit_s || longest >= stuck_s {
+                break;
+            }
+        }
+        println!("INCONCLUSIVE property={} watchdog after {} s", pid, start.elapsed().as_secs());
         if let Ok(g) = IN_FLIGHT.lock() {
             for (_, what, since) in g.iter() {
                 let secs = since.elapsed().as_secs();
@@ -640,6 +684,15 @@ pub fn main(prop: Property, jobs: Vec<Job>, selftests: &[(&str, fn() -> Result<u
                     println!("  a single case of {} has been running for {} s (a hang in the code under test, or a runaway case)", what, secs);
                 }
             }
+        }
+        let early: Vec<Failure> = EARLY_FAILURES.lock().map(|g| g.clone()).unwrap_or_default();
+        if !early.is_empty() && !wd_replay {
+            let (viol, _) = write_replays(&pid, &wd_dir, &wd_profile, wd_seed, &wd_tier, &early);
+            for (path, msg) in &viol {
+                println!("  failure: {}", msg);
+                println!("VIOLATION property={} replay={}", pid, path);
+            }
+            std::process::exit(1);
         }
         std::process::exit(2);
     });
@@ -717,20 +770,9 @@ pub fn main(prop: Property, jobs: Vec<Job>, selftests: &[(&str, fn() -> Result<u
     let mut stats = run_jobs(&opts, &jobs, None);
     harness_errors.extend(stats.harness_errors.drain(..));
 
-    let _ = std::fs::create_dir_all(&replay_dir);
-    for (k, f) in stats.failures.iter().enumerate() {
-        let fname = format!("{}/{}-{}-{}.json", replay_dir, sanitize(&f.job), sanitize(&f.part), opts.profile);
-        let fname = if stats.failures[..k].iter().any(|g| g.job == f.job && g.part == f.part) { format!("{}.{}", fname, k) } else { fname };
-        let doc = json!({
-            "property": prop.id, "job": f.job, "part": f.part, "profile": opts.profile,
-            "seed": opts.seed, "tier": format!("{:?}", opts.tier).to_lowercase(),
-            "case": f.case, "case_debug": f.case_dbg, "message": f.message,
-        });
-        if let Err(e) = std::fs::write(&fname, serde_json::to_string_pretty(&doc).unwrap()) {
-            harness_errors.push(format!("cannot write replay file {}: {}", fname, e));
-        }
-        violations.push((fname, format!("{} / {}: {} on case {}", f.job, f.part, f.message, truncate(&f.case_dbg, 600))));
-    }
+    let (viol, errs) = write_replays(prop.id, &replay_dir, &opts.profile, opts.seed, &format!("{:?}", opts.tier).to_lowercase(), &stats.failures);
+    violations.extend(viol);
+    harness_errors.extend(errs);
 
     // vacuity guards (depend only on generators / reference side)
     let distinct = stats.hashes.len() as u64;
